@@ -36,7 +36,7 @@ ASSUMPTIONS = [
 @st.composite
 def _case(draw, tier):
     if prob(draw, 0.4):
-        form = draw(st.sampled_from(["signal", "selfsignal", "waitlast"]))
+        form = draw(st.sampled_from(["signal", "selfsignal", "waitlast", "chat"]))
         step = draw(st.sampled_from([1, 1, 2]))
         start = draw(st.integers(0, 3))
         iters = draw(st.integers(0, 8))
@@ -48,8 +48,11 @@ def _case(draw, tier):
             L["k"] = 2
         if form == "waitlast":
             L["k"] = draw(st.integers(3, 4))
-        return {"part": "B", "loop": L, "order": draw(st.lists(st.integers(0, 9), min_size=10, max_size=10)), "sched": draw(st.lists(st.integers(0, 5), max_size=40))}
-    topo = draw(gen.g1_nodes(3, 8, default_on_edge=0.0))
+        if form == "chat":
+            L.update({"k": 1, "step_input": False, "limit": 2 * draw(st.integers(0, 4)), "start": 0, "step": 1})
+        return {"part": "B", "loop": L, "order": draw(st.lists(st.integers(0, 9), min_size=10, max_size=10)), "sched": draw(st.lists(st.integers(0, 5), max_size=40)),
+                "cache_body": prob(draw, 0.4)}
+    topo = draw(gen.g1_nodes(3, 8, default_on_edge=0.15))
     n = len(topo)
     nsig = draw(st.integers(1, 3))
     for si in range(nsig):
@@ -60,8 +63,10 @@ def _case(draw, tier):
             sname = topo[pi]["outs"][0]  # wait on a data name
         else:
             topo[pi].setdefault("emit", []).append(sname)
-            if kindp == "interrupt" and topo[pi]["outs"] and topo[pi]["k"] == "func":
-                topo[pi].update({"k": "interrupt", "mode": draw(st.sampled_from(["auto", "pause"])), "answer": ["ans", topo[pi]["name"]] if len(topo[pi]["outs"]) == 1 else {o: ["ans", o] for o in topo[pi]["outs"]}})
+            produced_names = {o for x in topo for o in x["outs"]}
+            if kindp == "interrupt" and topo[pi]["outs"] and topo[pi]["k"] == "func" and not any(p in produced_names for p in topo[pi]["defaults"]):
+                any_edge_default = any(p in produced_names for x in topo for p in x["defaults"])  # a re-running ancestor re-pauses
+                topo[pi].update({"k": "interrupt", "mode": "auto" if any_edge_default else draw(st.sampled_from(["auto", "pause"])), "answer": ["ans", topo[pi]["name"]] if len(topo[pi]["outs"]) == 1 else {o: ["ans", o] for o in topo[pi]["outs"]}})
         for _ in range(draw(st.integers(1, 3))):
             wi = draw(st.integers(pi + 1, n - 1))
             w = topo[wi]
@@ -82,7 +87,8 @@ def _case(draw, tier):
         for x in topo:
             if x.get("emit") and x["k"] == "func":
                 x["cache"] = True
-    return {"part": "A", "topo": topo, "nodes": draw(gen.permuted(nodes)), "sched": draw(st.lists(st.integers(0, 7), max_size=40)), "cache_emitters": cache_emitters}
+    return {"part": "A", "topo": topo, "nodes": draw(gen.permuted(nodes)), "sched": draw(st.lists(st.integers(0, 7), max_size=40)), "cache_emitters": cache_emitters,
+            "perms": [draw(st.permutations(list(range(len(nodes))))) for _ in range(2)]}
 
 
 def strategy(tier):
@@ -113,14 +119,15 @@ def _steps(events):
     return out
 
 
-def monitor(tag, events, nodes, with_steps, stats):
+def monitor(tag, events, nodes, with_steps, stats, supplied=()):
     """Safety: each start of a waiter is preceded, since its previous start, by a completed production of every awaited name."""
     producers = {}
     for n in nodes:
         for o in n.get("outs", []) + n.get("emit", []):
             producers.setdefault(o, set()).add(n["name"])
     waiters = {n["name"]: list(n.get("wait_for", [])) for n in nodes if n.get("wait_for")}
-    produced_since = {w: {s: False for s in ss} for w, ss in waiters.items()}
+    # a name the caller supplied (the answer to a paused interrupt) exists from the start of that run: the human produced it
+    produced_since = {w: {s: (s in supplied) for s in ss} for w, ss in waiters.items()}
     prod_step = {}  # name -> step of the latest production
     nprod = {}
     for kind, name, step in _steps(events):
@@ -182,6 +189,9 @@ def _part_a(case, ev):
     expect = {k: v for k, v in env.items() if prod[k]["name"] in runs}
     stats = {"waiter_starts": 0, "rearmed": 0}
     has_interrupt = any(n["k"] == "interrupt" for n in topo)
+    edge_defaults = any(p in prod for n in topo for p in n.get("defaults", {}))
+    if edge_defaults:
+        labels.add("default_on_edge")
     from hypergraph import AsyncRunner, SyncRunner
     from hypergraph.cache import InMemoryCache
 
@@ -217,7 +227,13 @@ def _part_a(case, ev):
             ctx.reset()
         if out.status != "completed":
             raise Violation("c17.run_failed", f"[{tag}] {out.brief()}")
-        monitor(tag, events, nodes, with_steps=(runner == "async"), stats=stats)
+        monitor(tag, events, nodes, with_steps=(runner == "async"), stats=stats, supplied=set(run_vals) - set(vals))
+        # With a signature default on an upstream-fed parameter a node may run early; a waiter downstream of it is then
+        # legitimately NOT re-armed when the value changes (it starts again only once its signal is produced again), so the
+        # dependency-order values are only demanded for programs without such defaults. The safety monitor and the
+        # node-order differential below apply to all programs.
+        if edge_defaults:
+            continue
         if out.values != expect:
             diff = {k: (J(out.values.get(k, "<absent>")), J(expect.get(k, "<absent>"))) for k in set(out.values) | set(expect) if out.values.get(k, "<absent>") != expect.get(k, "<absent>")}
             raise Violation("c17.values", f"[{tag}] (got, expected) {diff}", missing=any(k not in out.values for k in expect))
@@ -225,6 +241,21 @@ def _part_a(case, ev):
         for n in topo:
             if n["name"] in runs and n.get("wait_for") and n["name"] not in started:
                 raise Violation("c17.waiter_never_ran", f"[{tag}] waiter {n['name']} never ran although {n['wait_for']} were produced and its inputs exist", cached=bool(case.get("cache_emitters")))
+    # node-list order must not matter (output and signal names are unique): same values, same invocations, same safety
+    if not has_interrupt:
+        from ..observe import call_multiset
+
+        base_ctx = Ctx()
+        base_out = run_sync(make_graph(base_ctx, {"nodes": nodes}, "sync"), vals)
+        for perm in case.get("perms", []):
+            pn = [nodes[i] for i in perm]
+            c2 = Ctx()
+            rec = Recorder()
+            o2 = run_sync(make_graph(c2, {"nodes": pn}, "sync"), vals, event_processors=[rec])
+            if o2.status != base_out.status or o2.values != base_out.values or call_multiset(c2.log) != call_multiset(base_ctx.log):
+                raise Violation("c17.node_order", f"node order {perm}: {o2.brief()} with calls {sorted(map(repr, c2.log))} vs {base_out.brief()} with calls {sorted(map(repr, base_ctx.log))}")
+            monitor(f"sync DAG order {perm}", rec.events, pn, with_steps=False, stats=stats)
+        labels.add("permuted_orders")
     multi = any(len(n.get("wait_for", [])) >= 2 for n in nodes)
     if multi:
         labels.add("waiter_on_two_names")
@@ -243,18 +274,27 @@ def _part_b(case, ev):
     vals = loop_values(L)
     labels = {"part:B", f"form:{L['form']}"}
     stats = {"waiter_starts": 0, "rearmed": 0}
+    from hypergraph import AsyncRunner, SyncRunner
+    from hypergraph.cache import InMemoryCache
+
+    if case.get("cache_body"):
+        # emitting body nodes are cached and the loop is run twice on the same runner: a cache hit must still emit
+        gspec = {**gspec, "nodes": [({**n, "cache": True} if n["k"] == "func" and n.get("emit") else n) for n in gspec["nodes"]]}
+        labels.add("cached_emitters_second_run")
     flat_nodes = gspec["nodes"]
-    for runner in ("sync", "async"):
+    shared = {"sync": SyncRunner(cache=InMemoryCache()), "async": AsyncRunner(cache=InMemoryCache())}
+    plan = [("sync", 0), ("async", 0)] + ([("sync", 1), ("async", 1)] if case.get("cache_body") else [])
+    for runner, rep in plan:
         ctx = Ctx()
         g = make_graph(ctx, gspec, "async" if runner == "async" else "sync")
-        kw = {"entrypoint": "b0"} if len(g.inputs.entrypoints) > 1 else {}
-        tag = f"{runner} loop {L['form']}"
+        kw = {"entrypoint": "b0"} if len(g.inputs.entrypoints) > 1 and "b0" in g.inputs.entrypoints else {}
+        tag = f"{runner} loop {L['form']} run {rep}"
         if runner == "sync":
             rec = Recorder()
-            out = run_sync(g, vals, event_processors=[rec], **kw)
+            out = run_sync(g, vals, runner=shared["sync"], event_processors=[rec], **kw)
             events = rec.events
         else:
-            out, sched = run_scheduled(ctx, g, vals, case["sched"], **kw)
+            out, sched = run_scheduled(ctx, g, vals, case["sched"], runner=shared["async"], **kw)
             events = sched.hold.events
             if out.status == "deadlock":
                 raise Violation("c17.deadlock", f"[{tag}] {out.error}")
@@ -264,9 +304,14 @@ def _part_b(case, ev):
         if out.values != env:
             diff = {k: (J(out.values.get(k, "<absent>")), J(env.get(k, "<absent>"))) for k in set(out.values) | set(env) if out.values.get(k, "<absent>") != env.get(k, "<absent>")}
             raise Violation("c17.loop_values", f"[{tag}] the signal-synchronised loop ended with (got, expected) {diff}; loop={J(L)}", stalled=any(isinstance(v, int) and v < env.get(k, 0) for k, v in out.values.items() if isinstance(env.get(k), int)))
+        starts = {}
+        for e in events:
+            if type(e).__name__ == "NodeStartEvent":
+                starts[e.node_name] = starts.get(e.node_name, 0) + 1
         for name, want in counts.items():
-            if ctx.count(name) != want:
-                raise Violation("c17.loop_count", f"[{tag}] {name} ran {ctx.count(name)} times, the sequential loop {want}; loop={J(L)}", more=ctx.count(name) > want)
+            got = starts.get(name, 0)  # executions incl. those served from the cache
+            if got != want:
+                raise Violation("c17.loop_count", f"[{tag}] {name} ran {got} times, the sequential loop {want}; loop={J(L)}", more=got > want)
     ev.count("waiter_starts", stats["waiter_starts"])
     ev.case(case, stats["rearmed"] > 0 or L["form"] == "waitlast", sorted(labels))
 
